@@ -61,7 +61,7 @@ Proof.
     cbn [span_cont]. rewrite Hx. rewrite (IH r Hcs). reflexivity.
 Qed.
 
-Lemma span_cont_stop : forall negs t y r,
+Lemma span_cont_stop : forall negs t (y : jev) r,
   is_cont negs t (snd y) = false -> span_cont negs t (y :: r) = ([], y :: r).
 Proof. intros. cbn [span_cont]. rewrite H. reflexivity. Qed.
 
@@ -84,13 +84,13 @@ Proof.
       * f_equal. apply IH; lia.
 Qed.
 
-Lemma segments_plain : forall negs e r,
+Lemma segments_plain : forall negs (e : jev) r,
   is_start (snd e) = None -> segments negs (e :: r) = SPlain e :: segments negs r.
 Proof.
   intros negs e r H. unfold segments. cbn [length segments_fuel]. rewrite H. reflexivity.
 Qed.
 
-Lemma segments_run : forall negs e r t cs rest,
+Lemma segments_run : forall negs (e : jev) r t cs rest,
   is_start (snd e) = Some t -> span_cont negs t r = (cs, rest) ->
   segments negs (e :: r) =
     match rest with
@@ -154,6 +154,22 @@ Proof.
   - rewrite (segments_plain _ _ _ Hs). reflexivity.
 Qed.
 
+Definition closing_ok (negs : list bool) (t : Z) (c : closing) (l : list seg) : bool :=
+  match c with
+  | COpen => match l with [] => true | _ :: _ => false end
+  | CTimeout y => is_timeout (snd y)
+  | CNext => match l with
+             | [] => false
+             | n :: _ => negb (is_cont negs t (snd (seg_head n))) && negb (is_timeout (snd (seg_head n)))
+             end
+  end.
+
+Lemma segs_ok_run : forall negs s t cs c l,
+  segs_ok negs (SRun s t cs c :: l) =
+    match is_start (snd s) with Some t' => t' =? t | None => false end &&
+    forallb (fun e => is_cont negs t (snd e)) cs && closing_ok negs t c l && segs_ok negs l.
+Proof. reflexivity. Qed.
+
 Lemma segments_ok : forall negs evs, segs_ok negs (segments negs evs) = true.
 Proof.
   intros negs evs. remember (length evs) as n eqn:Hn.
@@ -168,20 +184,24 @@ Proof.
       pose proof (span_cont_all _ _ _ _ _ E) as Hall.
       assert (Hl : (length rest <= length r)%nat) by (rewrite Hr, app_length; lia).
       destruct rest as [|y rest'].
-      * cbn [segs_ok]. rewrite Hs, Z.eqb_refl, Hall. reflexivity.
+      * rewrite segs_ok_run, Hs, Z.eqb_refl, Hall. reflexivity.
       * pose proof (span_cont_head _ _ _ _ _ _ E) as Hy. cbn [length] in Hl.
+        assert (Hnext : snd y <> JTimeout ->
+                  segs_ok negs (SRun e t cs CNext :: segments negs (y :: rest')) = true).
+        { intro Hnt. rewrite segs_ok_run, Hs, Z.eqb_refl, Hall, IH by (cbn [length]; lia).
+          pose proof (segments_head negs (y :: rest')) as Hh.
+          destruct (segments negs (y :: rest')) as [|s0 l0]; [contradiction|].
+          cbn [closing_ok]. rewrite Hh, Hy. destruct (snd y); [contradiction| |]; reflexivity. }
         destruct (snd y) eqn:Ey.
-        -- cbn [segs_ok]. rewrite Hs, Z.eqb_refl, Hall, Ey. cbn. apply IH. lia.
-        -- cbn [segs_ok]. rewrite Hs, Z.eqb_refl, Hall.
-           pose proof (segments_head negs (y :: rest')) as Hh.
-           destruct (segments negs (y :: rest')) as [|s0 l0] eqn:Es; [contradiction|].
-           rewrite Hh, Hy, Ey. cbn. rewrite <- Es. apply IH. cbn [length]. lia.
-        -- cbn [segs_ok]. rewrite Hs, Z.eqb_refl, Hall.
-           pose proof (segments_head negs (y :: rest')) as Hh.
-           destruct (segments negs (y :: rest')) as [|s0 l0] eqn:Es; [contradiction|].
-           rewrite Hh, Hy, Ey. cbn. rewrite <- Es. apply IH. cbn [length]. lia.
+        -- rewrite segs_ok_run, Hs, Z.eqb_refl, Hall. cbn [closing_ok]. rewrite Ey, IH by lia. reflexivity.
+        -- apply Hnext. discriminate.
+        -- apply Hnext. discriminate.
     + rewrite (segments_plain _ _ _ Hs). cbn [segs_ok]. rewrite Hs. cbn. apply IH. lia.
 Qed.
+
+Theorem segments_partition_ok : forall negs evs,
+  concat (map seg_inputs (segments negs evs)) = evs /\ segs_ok negs (segments negs evs) = true.
+Proof. intros; split; [apply segments_partition|apply segments_ok]. Qed.
 
 Lemma segments_unique : forall negs ss,
   segs_ok negs ss = true -> segments negs (concat (map seg_inputs ss)) = ss.
@@ -204,7 +224,9 @@ Proof.
       reflexivity.
     + destruct l as [|n l']; [discriminate|].
       apply andb_true_iff in Hc. destruct Hc as [Hnc Hnt].
-      cbn [map concat seg_inputs]. cbn [app].
+      change (concat (map seg_inputs (SRun s t cs CNext :: n :: l')))
+        with ((s :: cs) ++ concat (map seg_inputs (n :: l'))).
+      cbn [app].
       destruct (seg_inputs_head n) as [tl Htl].
       remember (concat (map seg_inputs (n :: l'))) as rest eqn:Hrest.
       assert (Hr : rest = seg_head n :: tl ++ concat (map seg_inputs l')).
@@ -212,8 +234,8 @@ Proof.
       erewrite segments_run; [|exact Es|].
       2:{ rewrite (span_cont_prefix _ _ _ _ Hcs). rewrite Hr. rewrite span_cont_stop by (destruct (is_cont negs t (snd (seg_head n))); [discriminate|reflexivity]).
           cbn. rewrite app_nil_r. reflexivity. }
-      destruct (snd (seg_head n)) eqn:En; [discriminate| |];
-        rewrite <- Hr, Hrest, (IH Hl); reflexivity.
+      pose proof (IH Hl) as Hseg. rewrite Hr in Hseg |- *.
+      destruct (snd (seg_head n)) eqn:En; [discriminate| |]; rewrite Hseg; reflexivity.
     + cbn [map concat seg_inputs]. cbn [app]. rewrite <- app_assoc. cbn [app].
       destruct y as [iy xy]. cbn [snd] in Hc. destruct xy; try discriminate.
       erewrite segments_run; [|exact Es|].
@@ -241,21 +263,21 @@ Lemma limited_cat_rule : forall max vs first,
     ((k < length vs)%nat -> max <> 0 /\ max <= len (first ++ concat (firstn k vs))).
 Proof.
   intros max vs. induction vs as [|v r IH]; intros first.
-  - exists 0%nat. cbn. rewrite app_nil_r. repeat split; try lia.
+  - exists 0%nat. cbn. rewrite app_nil_r. split; [lia|]. split; [reflexivity|]. split; intros; lia.
   - destruct ((max =? 0) || (len first <? max)) eqn:Hfit.
     + destruct (IH (first ++ v)) as [k [Hk [Hc [Hj Hstop]]]].
-      exists (S k). cbn [length firstn concat]. repeat split.
-      * lia.
+      exists (S k). cbn [length firstn concat]. split; [lia|]. split; [|split].
       * unfold limited_cat in *. cbn [fold_left]. unfold append_limited at 2. rewrite Hfit.
         rewrite Hc, <- app_assoc. reflexivity.
       * intros j Hjk. destruct j as [|j].
         -- cbn. rewrite app_nil_r. lia.
         -- cbn [firstn concat]. rewrite app_assoc. apply Hj. lia.
       * intro Hlt. rewrite app_assoc. apply Hstop. lia.
-      * intro Hlt. rewrite app_assoc. apply Hstop. lia.
-    + exists 0%nat. cbn [firstn concat length]. rewrite app_nil_r. repeat split; try lia.
-      unfold limited_cat. cbn [fold_left]. unfold append_limited at 2. rewrite Hfit.
-      apply limited_cat_full; lia.
+    + exists 0%nat. cbn [firstn concat length]. rewrite app_nil_r. split; [lia|]. split; [|split].
+      * unfold limited_cat. cbn [fold_left]. unfold append_limited at 2. rewrite Hfit.
+        apply limited_cat_full; lia.
+      * intros j Hj. lia.
+      * intros _. lia.
 Qed.
 
 Lemma limited_cat_zero : forall vs first, limited_cat 0 first vs = first ++ concat vs.
@@ -273,23 +295,38 @@ Proof. intros. unfold limited_cat. rewrite fold_left_app. reflexivity. Qed.
 Lemma in_bytes_app : forall a b, in_bytes (a ++ b) = in_bytes a ++ in_bytes b.
 Proof. intros. unfold in_bytes. rewrite map_app, concat_app. reflexivity. Qed.
 
-Lemma seg_bytes_zero : forall s, seg_bytes 0 s = in_bytes (seg_inputs s).
+Definition timeout_closed (s : seg) : bool :=
+  match s with SRun _ _ _ (CTimeout y) => is_timeout (snd y) | _ => true end.
+
+Lemma seg_bytes_zero : forall s, timeout_closed s = true -> seg_bytes 0 s = in_bytes (seg_inputs s).
 Proof.
-  destruct s as [e|s t cs c]; unfold in_bytes; cbn [seg_bytes seg_inputs map concat].
+  destruct s as [e|s t cs c]; intro Hc; unfold in_bytes; cbn [seg_bytes seg_inputs map concat].
   - rewrite app_nil_r. reflexivity.
   - unfold run_content. rewrite limited_cat_zero.
     destruct c as [| |y]; cbn [map concat]; try reflexivity.
     rewrite map_app, concat_app. cbn [map concat].
-    destruct y as [iy xy]. (* a closing time-out carries no bytes *)
-    destruct xy; cbn [snd jval]; rewrite ?app_nil_r; reflexivity.
+    destruct y as [iy xy]. cbn [timeout_closed snd] in Hc. (* a closing time-out carries no bytes *)
+    destruct xy; try discriminate. cbn [snd jval]. rewrite !app_nil_r. reflexivity.
+Qed.
+
+Lemma segs_ok_timeout_closed : forall negs ss, segs_ok negs ss = true -> forallb timeout_closed ss = true.
+Proof.
+  induction ss as [|s l IH]; intro H; [reflexivity|]. cbn [forallb].
+  destruct s as [e|s t cs c].
+  - cbn [segs_ok] in H. apply andb_true_iff in H. destruct H as [_ H]. rewrite (IH H). reflexivity.
+  - rewrite segs_ok_run in H. apply andb_true_iff in H. destruct H as [H Hl].
+    apply andb_true_iff in H. destruct H as [_ Hc]. rewrite (IH Hl).
+    destruct c; cbn [timeout_closed closing_ok] in *; try reflexivity. rewrite Hc. reflexivity.
 Qed.
 
 Theorem join_conservation_zero : forall negs evs,
   concat (map (seg_bytes 0) (segments negs evs)) = in_bytes evs.
 Proof.
   intros negs evs. rewrite <- (segments_partition negs evs) at 2.
+  pose proof (segs_ok_timeout_closed _ _ (segments_ok negs evs)) as Hc.
   induction (segments negs evs) as [|s l IH]; [reflexivity|].
-  cbn [map concat]. rewrite in_bytes_app, IH, seg_bytes_zero. reflexivity.
+  cbn [forallb] in Hc. apply andb_true_iff in Hc. destruct Hc as [Hs Hl].
+  cbn [map concat]. rewrite in_bytes_app, (IH Hl), (seg_bytes_zero _ Hs). reflexivity.
 Qed.
 
 (* with a limit every segment carries a prefix of what it would carry without one *)
@@ -469,10 +506,9 @@ Proof.
                              buff := append_limited (jmax c) (buff st) v; cur := cur st |}) in *.
               assert (Hjw : joining_with c st1 s t (cs ++ [(iy, JField isStr v starts conts)])).
               { unfold joining_with, st1. cbn [isJoining initial cur buff]. repeat split; try assumption; try lia.
-                unfold run_content. rewrite map_app. cbn [map snd jval].
-                rewrite limited_cat_snoc. fold (run_content (jmax c) s cs). rewrite <- Hb. reflexivity. }
+                unfold run_content in Hb |- *. rewrite map_app. cbn [map]. rewrite limited_cat_snoc, Hb. reflexivity. }
               assert (Hcs' : forallb (fun e => is_cont (jnegs c) t (snd e)) (cs ++ [(iy, JField isStr v starts conts)]) = true).
-              { rewrite forallb_app, Hcs. cbn. rewrite Hic. reflexivity. }
+              { rewrite forallb_app. apply andb_true_iff. split; [exact Hcs|]. cbn [forallb snd]. rewrite Hic. reflexivity. }
               destruct (IHB st1 _ _ _ Hjw Hcs' Hbusy) as [os [st' [Hr [Hl [Hd [Hres Hp]]]]]].
               exists ((ACollapse, []) :: os), st'. cbn [join_run join_do].
               rewrite Hft, Hj, Hnk. cbn [bind]. fold st1. rewrite Hr.
